@@ -2,6 +2,7 @@ package handshake
 
 import (
 	"fmt"
+	"strings"
 	"testing"
 
 	ouroboros "github.com/blinklabs-io/gouroboros"
@@ -40,7 +41,11 @@ func genFlagsData(rt *rapid.T, f family, magic uint64) vdata {
 var allFamilies = []family{famNtC9, famNtC15, famNtN7, famNtN11, famNtN13}
 
 func genScalarJunk(rt *rapid.T, label string) *xcbor.Node {
-	switch rapid.IntRange(0, 9).Draw(rt, label) {
+	switch rapid.IntRange(0, 11).Draw(rt, label) {
+	case 10:
+		return &xcbor.Node{Kind: xcbor.Simple, Arg: 23} // undefined
+	case 11:
+		return &xcbor.Node{Kind: xcbor.Simple, Arg: 0x3ff0000000000000, Width: 8} // float64 1.0
 	case 0:
 		return xcbor.Null()
 	case 1:
@@ -149,7 +154,7 @@ func genData(rt *rapid.T, fam family, own uint32, proposed *xcbor.Node) (*xcbor.
 var unknownVersions = []uint64{0, 3, 4, 5, 6, 16, 17, 100, 0x0fff, dmqNtcBit, dmqNtcBit + 2, 0x7fff, ntcBit, ntcBit + 1, ntcBit + 8, ntcBit + 22, ntcBit + 100, 0xffff,
 	0x10000, 0x10000 + 13, 0x10000 + ntcBit + 16, 0x10000 + dmqNtcBit + 1, 1 << 32, (1 << 32) + 13}
 
-func genAnswer(rt *rapid.T, prop proposal, propTable string, own uint32, queryClient bool) c19Answer {
+func genAnswer(rt *rapid.T, prop proposal, propTable string, own uint32, queryClient, maySplit bool) c19Answer {
 	a := c19Answer{Kind: "accept"}
 	switch rapid.IntRange(0, 19).Draw(rt, "answerKind") {
 	case 0:
@@ -227,8 +232,11 @@ func genAnswer(rt *rapid.T, prop proposal, propTable string, own uint32, queryCl
 		a.Data, a.DataGen = genData(rt, fam, own, prop.Data[a.Version])
 		a.Msg = xcbor.A(xcbor.U(1), xcbor.U(a.Version), a.Data).Encode()
 	}
-	// how the message is cut into segments
-	if rapid.IntRange(0, 2).Draw(rt, "split") == 0 && len(a.Msg) > 2 {
+	// how the message is cut into segments. The specification requires handshake
+	// messages to fit one segment and Connection reads exactly one segment before
+	// the handshake is over, so splitting is only done against the direct driver
+	// (whose muxer is fully started).
+	if maySplit && rapid.IntRange(0, 2).Draw(rt, "split") == 0 && len(a.Msg) > 2 {
 		cut := rapid.IntRange(1, len(a.Msg)-1).Draw(rt, "cut")
 		a.SegSizes = []int{cut, len(a.Msg) - cut}
 	} else {
@@ -247,9 +255,12 @@ func (a c19Answer) send(p *rawpeer.Peer) error {
 	return p.Send(segs...)
 }
 
-// verdict of the reference on an AcceptVersion: "" when the initiator may
-// complete, otherwise the finding-key suffix naming why it must not.
-func c19Verdict(a c19Answer, prop proposal, own uint32) (mayComplete bool, vclass, dclass string, d vdata) {
+// c19Verdict is the reference's judgement of an AcceptVersion.
+//   may   the initiator is entitled to complete (proposed, strictly valid, own magic)
+//   grey  proposed and only decoder tolerance separates the data from a valid
+//         own-magic item (counted, never flagged either way)
+//   vclass/dclass name the class for the finding key when it completes anyway
+func c19Verdict(a c19Answer, prop proposal, own uint32) (may, grey bool, vclass, dclass string, d vdata) {
 	vi, known := refVersion(a.Version)
 	switch {
 	case prop.has(a.Version):
@@ -257,26 +268,38 @@ func c19Verdict(a c19Answer, prop proposal, own uint32) (mayComplete bool, vclas
 	case known:
 		vclass = a.VClass // same-table / other-table, as generated
 	default:
-		vclass = "unknown"
-	}
-	if !known {
-		return false, vclass, "any", d
+		return false, false, "unknown", "any", d
 	}
 	d, why := refParse(vi.Fam, a.Data)
 	switch {
-	case why != "":
-		dclass = "invalid:" + why
-	case d.Magic != uint64(own):
-		dclass = "valid-foreign-magic"
+	case why == "" && d.Magic == uint64(own):
+		dclass = "own-magic"
+	case why == "":
+		dclass = "foreign-magic"
 	default:
-		dclass = "valid-own-magic"
+		ld, ok := refLenient(vi.Fam, a.Data)
+		switch {
+		case !ok:
+			dclass = "wrong-shape:" + why
+		case vclass != "proposed" && ld.Magic == uint64(own):
+			dclass = "own-magic" // the version alone makes it unacceptable; shape detail stays in the case
+		case vclass != "proposed":
+			dclass = "foreign-magic"
+		case ld.Magic == uint64(own):
+			dclass = "lenient-shape-own-magic"
+		default:
+			dclass = "lenient-shape-foreign-magic"
+		}
+		d = ld
 	}
-	return vclass == "proposed" && dclass == "valid-own-magic", vclass, dclass, d
+	may = vclass == "proposed" && dclass == "own-magic"
+	grey = vclass == "proposed" && dclass == "lenient-shape-own-magic"
+	return
 }
 
 func TestC19(t *testing.T) {
 	rec := evi.New(t, "C19", evi.Exploration,
-		"a real initiator (ouroboros.Connection client in NtC / NtN(±full-duplex,±peer-sharing) / DMQ mode, or protocol/handshake.Client with a generated sub-table of NtN/NtC/DMQ-NtC/DMQ-NtN on a real muxer) proposes; a raw peer answers with a generated message: AcceptVersion{version ∈ proposed | known-but-unproposed (same table / other table) | unknown (incl. >16 bit)} × data{canonical own magic | canonical foreign magic | echo | other family's shape | structurally mutated | garbage | restyled heads}, or an unsolicited QueryReply / a Refuse; oracle: the initiator completes (NewConnection err==nil / FinishedFunc called) only if version ∈ the set read off the wire ∧ data valid per the version's CDDL ∧ magic == own, and a canonical valid acceptance does complete with exactly that version and data; non-trivial = an answer that must NOT complete the handshake; distinct by (driver, client config class, proposed set, answer bytes)")
+		"a real initiator (ouroboros.Connection client in NtC / NtN(±full-duplex,±peer-sharing) / DMQ mode, or protocol/handshake.Client with a generated sub-table of NtN/NtC/DMQ-NtC/DMQ-NtN on a real muxer) proposes; a raw peer answers with a generated message: AcceptVersion{version ∈ proposed | known-but-unproposed (same table / other table) | unknown (incl. >16 bit)} × data{canonical own magic | canonical foreign magic | echo | other family's shape | structurally mutated | garbage | restyled heads}, or a QueryReply / a Refuse; oracle: the initiator completes (NewConnection err==nil / FinishedFunc called) only if version ∈ the set read off the wire ∧ data valid per the version's CDDL ∧ magic == own, and a canonical valid acceptance does complete with exactly that version and data; non-trivial = an answer that must NOT complete the handshake; distinct by (driver, client config class, proposed set, answer bytes)")
 	defer rec.Finish()
 	rec.Assume(
 		"the proposed set is read off the wire with the harness's own CBOR parser (ground truth of what was offered)",
@@ -285,7 +308,7 @@ func TestC19(t *testing.T) {
 
 	rec.Check(func(rt *rapid.T) {
 		own := genMagic(rt, "own")
-		direct := rapid.IntRange(0, 2).Draw(rt, "driver") == 0
+		direct := rapid.IntRange(0, 2).Draw(rt, "driver") == 2
 		planA, planB := genPlan(rt, "planLib"), genPlan(rt, "planPeer")
 		a, b := rawpeer.Pipe(planA, planB)
 		peer := rawpeer.NewPeer(b)
@@ -295,7 +318,7 @@ func TestC19(t *testing.T) {
 		var propTable, cfgDesc string
 		var resCh <-chan connResult
 		var de *directEnd
-		queryClient := rapid.IntRange(0, 9).Draw(rt, "queryClient") == 0
+		queryClient := rapid.IntRange(0, 9).Draw(rt, "queryClient") == 9
 		if direct {
 			propTable = rapid.SampledFrom(allTables).Draw(rt, "directTable")
 			vs := genSubset(rt, refTable(propTable), "directSubset")
@@ -332,7 +355,7 @@ func TestC19(t *testing.T) {
 			rec.Fail(rt, "proposal-malformed", fmt.Sprintf("%s: proposal %x: %v", cfgDesc, msg, err), map[string]any{"config": cfgDesc, "proposal": evi.Hex(msg)})
 			return
 		}
-		ans := genAnswer(rt, prop, propTable, own, queryClient)
+		ans := genAnswer(rt, prop, propTable, own, queryClient, direct)
 		if err := ans.send(peer); err != nil {
 			rt.Fatalf("harness: send failed: %v", err)
 		}
@@ -395,20 +418,21 @@ func TestC19(t *testing.T) {
 				}
 				return
 			}
+			// Not an acceptance, hence outside the statement's quantifier; the
+			// library's own TestClientQueryReply expects a non-query client to
+			// finish with version 0 on a QueryReply. Observed and counted only
+			// (see findings/C19.md, "observations").
 			rec.Class("answer:queryreply-unsolicited")
-			rec.NonTrivial(desc, cs)
 			if completed {
-				drv := "conn"
-				if direct {
-					drv = "direct"
+				rec.Class("observed:unsolicited-queryreply-completes-with-version-0")
+				if gotVersion != 0 {
+					rec.Fail(rt, "queryreply:version-selected", fmt.Sprintf("%s: query reply selected version %d", cfgDesc, gotVersion), cs)
 				}
-				rec.Fail(rt, "completed:unsolicited-queryreply:"+drv,
-					fmt.Sprintf("%s: initiator that did not ask for a query completed the handshake on a QueryReply (reported version %d, which it never proposed)", cfgDesc, gotVersion), cs)
 			}
 			return
 		}
 
-		may, vclass, dclass, want := c19Verdict(ans, prop, own)
+		may, grey, vclass, dclass, want := c19Verdict(ans, prop, own)
 		cs["version"] = verName(ans.Version)
 		cs["version_class"] = vclass
 		cs["data_class"] = dclass
@@ -416,7 +440,7 @@ func TestC19(t *testing.T) {
 		rec.Class("v:" + vclass)
 		rec.Class("d:" + dataClassBucket(dclass))
 		rec.Class("gen:" + ans.DataGen)
-		if !may {
+		if !may && !grey {
 			rec.NonTrivial(desc, cs)
 		}
 		if completed {
@@ -425,13 +449,12 @@ func TestC19(t *testing.T) {
 			rec.Class("failed")
 		}
 		switch {
-		case completed && !may:
-			if lenient(dclass) && vclass == "proposed" {
-				// decoder leniency on an otherwise acceptable answer: counted only
-				rec.Class("lenient-accept:" + dclass)
-				return
+		case grey:
+			if completed {
+				rec.Class("lenient-accept")
 			}
-			key := fmt.Sprintf("accepted:%s:%s", vclass, keyDataClass(dclass))
+		case completed && !may:
+			key := fmt.Sprintf("accepted:%s:%s", vclass, dclass)
 			rec.Fail(rt, key, fmt.Sprintf("%s (proposed {%s}) completed the handshake on AcceptVersion(version=%s [%s], data=%x [%s]); reported version %d",
 				cfgDesc, versionsString(prop.Versions), verName(ans.Version), vclass, ans.Data.Encode(), dclass, gotVersion), cs)
 		case completed && may:
@@ -465,24 +488,9 @@ func TestC19(t *testing.T) {
 	})
 }
 
-// lenient marks the data classes where only a tolerated decoder leniency makes
-// the data invalid under the strict CDDL reading.
-func lenient(dclass string) bool {
-	switch dclass {
-	case "invalid:peersharing-out-of-range",
-		"invalid:field1-not-bool(simple)", "invalid:query-not-bool(simple)":
-		return true
-	}
-	return false
-}
-
 func dataClassBucket(dclass string) string {
-	if len(dclass) > 8 && dclass[:8] == "invalid:" {
-		return "invalid"
+	if strings.HasPrefix(dclass, "wrong-shape:") {
+		return "wrong-shape"
 	}
 	return dclass
 }
-
-// keyDataClass keeps finding keys stable: the precise reason for invalid data is
-// part of the key (it names the wrongly accepted shape).
-func keyDataClass(dclass string) string { return dclass }
